@@ -150,3 +150,12 @@ Lemma g_NewIPv6Prefix_2 x : holds (gd G_NewIPv6Prefix 2) x = negb (x =? 0). Proo
 Lemma g_IPv6Prefix_0 x : holds (gd G_IPv6Prefix 0) x = (x <? 2). Proof. reflexivity. Qed.
 Lemma g_IPv6Prefix_1 x : holds (gd G_IPv6Prefix 1) x = (x >? 18). Proof. reflexivity. Qed.
 Lemma g_IPv6Prefix_2 x : holds (gd G_IPv6Prefix 2) x = (x >? 128). Proof. reflexivity. Qed.
+
+(* ---- client.go ---- *)
+Example shape_Exchange :
+  (gexpr_is G_Client_Exchange 0 "c.Retry" && gexpr_is G_Client_Exchange 1 "c.MaxPacketErrors" &&
+   gexpr_is G_Client_Exchange 2 "c.MaxPacketErrors")%bool = true.
+Proof. guard_shape. Qed.
+Lemma g_Exchange_0 x : holds (gd G_Client_Exchange 0) x = (x >? 0). Proof. reflexivity. Qed.
+Lemma g_Exchange_1 x : holds (gd G_Client_Exchange 1) x = (x >? 0). Proof. reflexivity. Qed.
+Lemma g_Exchange_2 x : holds (gd G_Client_Exchange 2) x = (x >? 0). Proof. reflexivity. Qed.
